@@ -46,14 +46,17 @@ theorem launch_keeps (f : Faults) (co : CreateOutcome) (c : Ctx) : Keeps c.w.cla
       · simp; exact Keeps.refl _
       · simp; exact Keeps.refl _
 
+theorem timeoutDelete_keeps (f : Faults) (c : Ctx) : Keeps c.w.claim (timeoutDelete f c).w.claim := by
+  unfold timeoutDelete; simp only []
+  split; · simpa using Keeps.refl c.w.claim
+  have := deleteClaim_keeps f (poolHealth f c).1
+  split <;> simpa using this
+
 theorem livenessLaunch_keeps (f : Faults) (c : Ctx) : Keeps c.w.claim (livenessLaunch f c).1.w.claim := by
   unfold livenessLaunch
   split; · exact Keeps.refl _
   split; · exact Keeps.refl _
-  simp only []
-  have := deleteClaim_keeps f c
-  split; · exact this
-  split <;> simpa using this
+  exact timeoutDelete_keeps f c
 
 theorem liveness_keeps (f : Faults) (c : Ctx) : Keeps c.w.claim (liveness f c).w.claim := by
   unfold liveness
@@ -62,10 +65,7 @@ theorem liveness_keeps (f : Faults) (c : Ctx) : Keeps c.w.claim (liveness f c).w
   have h1 := livenessLaunch_keeps f c
   split; · exact h1
   split; · simpa using h1
-  have h2 := deleteClaim_keeps f (livenessLaunch f c).1
-  split
-  · exact h1.trans h2
-  · exact h1.trans (by simpa using h2)
+  exact h1.trans (timeoutDelete_keeps f (livenessLaunch f c).1)
 
 theorem persist_keeps (stored : Claim) (f : Faults) (c : Ctx) : Keeps c.w.claim (persist stored f c).w.claim := by
   rcases (persist_world stored f c).2.2.2.2.2 with h | h | h <;> rw [h]
@@ -94,7 +94,8 @@ def modelObs (sp : Spec) (w : World) (s : Step) : StepObs :=
   { isRec := (step sp w s).2.isRec, fresh := (step sp w s).2.fresh, view := (step sp w s).2.view,
     calls := (step sp w s).2.calls, result := (step sp w s).2.result,
     claim := (step sp w s).1.claim, nodes := (step sp w s).1.nodes,
-    creates := (creates (step sp w s).2.calls).map (createObsOf (step sp w s).1) }
+    creates := (creates (step sp w s).2.calls).map (createObsOf (step sp w s).1),
+    now := (step sp w s).1.now }
 
 def accOf (w : World) : Acc := { prev := w.claim, created := w.instances, finEver := w.finEver }
 
